@@ -146,7 +146,10 @@ func Battery(u Universe, keys []string, sessions []string, extra BatteryExtra) [
 		})
 	}
 	// ---- sessions
-	add("session", "SessionList", func(s *state.Store, ws memdb.WatchSet) (uint64, any, error) { i, r, e := s.SessionList(ws, nil); return i, r, e })
+	add("session", "SessionList", func(s *state.Store, ws memdb.WatchSet) (uint64, any, error) {
+		i, r, e := s.SessionList(ws, nil)
+		return i, r, e
+	})
 	for _, id := range sessions {
 		id := id
 		add("session", "SessionGet("+tail8(id)+")", func(s *state.Store, ws memdb.WatchSet) (uint64, any, error) {
@@ -168,7 +171,10 @@ func Battery(u Universe, keys []string, sessions []string, extra BatteryExtra) [
 		if peer != "" {
 			sfx = "@" + peer
 		}
-		add("catalog", "Nodes"+sfx, func(s *state.Store, ws memdb.WatchSet) (uint64, any, error) { i, r, e := s.Nodes(ws, nil, peer); return i, r, e })
+		add("catalog", "Nodes"+sfx, func(s *state.Store, ws memdb.WatchSet) (uint64, any, error) {
+			i, r, e := s.Nodes(ws, nil, peer)
+			return i, r, e
+		})
 		add("catalog", "Services"+sfx, func(s *state.Store, ws memdb.WatchSet) (uint64, any, error) {
 			i, r, e := s.Services(ws, nil, peer, false)
 			return i, r, e
@@ -315,7 +321,10 @@ func Battery(u Universe, keys []string, sessions []string, extra BatteryExtra) [
 		})
 	}
 	// ---- config entries, intentions
-	add("config", "ConfigEntries", func(s *state.Store, ws memdb.WatchSet) (uint64, any, error) { i, r, e := s.ConfigEntries(ws, nil); return i, r, e })
+	add("config", "ConfigEntries", func(s *state.Store, ws memdb.WatchSet) (uint64, any, error) {
+		i, r, e := s.ConfigEntries(ws, nil)
+		return i, r, e
+	})
 	for _, kind := range []string{structs.ServiceDefaults, structs.ProxyDefaults, structs.ServiceResolver, structs.ServiceSplitter, structs.ServiceRouter,
 		structs.IngressGateway, structs.TerminatingGateway, structs.ServiceIntentions, structs.MeshConfig, structs.ExportedServices} {
 		kind := kind
@@ -341,7 +350,10 @@ func Battery(u Universe, keys []string, sessions []string, extra BatteryExtra) [
 		return i, r, e
 	})
 	// ---- prepared queries, coordinates
-	add("query", "PreparedQueryList", func(s *state.Store, ws memdb.WatchSet) (uint64, any, error) { i, r, e := s.PreparedQueryList(ws); return i, r, e })
+	add("query", "PreparedQueryList", func(s *state.Store, ws memdb.WatchSet) (uint64, any, error) {
+		i, r, e := s.PreparedQueryList(ws)
+		return i, r, e
+	})
 	for n := 1; n <= 3; n++ {
 		id := QueryUUID(n)
 		add("query", "PreparedQueryGet("+tail8(id)+")", func(s *state.Store, ws memdb.WatchSet) (uint64, any, error) {
@@ -349,7 +361,10 @@ func Battery(u Universe, keys []string, sessions []string, extra BatteryExtra) [
 			return i, r, e
 		})
 	}
-	add("coordinate", "Coordinates", func(s *state.Store, ws memdb.WatchSet) (uint64, any, error) { i, r, e := s.Coordinates(ws, nil); return i, r, e })
+	add("coordinate", "Coordinates", func(s *state.Store, ws memdb.WatchSet) (uint64, any, error) {
+		i, r, e := s.Coordinates(ws, nil)
+		return i, r, e
+	})
 	for _, n := range u.Nodes {
 		n := n
 		add("coordinate", "Coordinate("+n+")", func(s *state.Store, ws memdb.WatchSet) (uint64, any, error) {
@@ -359,8 +374,14 @@ func Battery(u Universe, keys []string, sessions []string, extra BatteryExtra) [
 	}
 	// ---- CA, peering, ACL, federation, metadata
 	add("ca", "CARoots", func(s *state.Store, ws memdb.WatchSet) (uint64, any, error) { i, r, e := s.CARoots(ws); return i, r, e })
-	add("ca", "CARootActive", func(s *state.Store, ws memdb.WatchSet) (uint64, any, error) { i, r, e := s.CARootActive(ws); return i, r, e })
-	add("ca", "CAConfig", func(s *state.Store, ws memdb.WatchSet) (uint64, any, error) { i, r, e := s.CAConfig(ws); return i, r, e })
+	add("ca", "CARootActive", func(s *state.Store, ws memdb.WatchSet) (uint64, any, error) {
+		i, r, e := s.CARootActive(ws)
+		return i, r, e
+	})
+	add("ca", "CAConfig", func(s *state.Store, ws memdb.WatchSet) (uint64, any, error) {
+		i, r, e := s.CAConfig(ws)
+		return i, r, e
+	})
 	add("internal", "CAProviderState(prov1)", func(s *state.Store, ws memdb.WatchSet) (uint64, any, error) {
 		i, r, e := s.CAProviderState("prov1")
 		return i, r, e
@@ -404,8 +425,14 @@ func Battery(u Universe, keys []string, sessions []string, extra BatteryExtra) [
 		i, r, e := s.ACLTokenList(ws, true, true, "", "", "", nil, nil)
 		return i, r, e
 	})
-	add("acl", "ACLPolicyList", func(s *state.Store, ws memdb.WatchSet) (uint64, any, error) { i, r, e := s.ACLPolicyList(ws, nil); return i, r, e })
-	add("acl", "ACLRoleList", func(s *state.Store, ws memdb.WatchSet) (uint64, any, error) { i, r, e := s.ACLRoleList(ws, "", nil); return i, r, e })
+	add("acl", "ACLPolicyList", func(s *state.Store, ws memdb.WatchSet) (uint64, any, error) {
+		i, r, e := s.ACLPolicyList(ws, nil)
+		return i, r, e
+	})
+	add("acl", "ACLRoleList", func(s *state.Store, ws memdb.WatchSet) (uint64, any, error) {
+		i, r, e := s.ACLRoleList(ws, "", nil)
+		return i, r, e
+	})
 	add("acl", "ACLAuthMethodList", func(s *state.Store, ws memdb.WatchSet) (uint64, any, error) {
 		i, r, e := s.ACLAuthMethodList(ws, nil)
 		return i, r, e
@@ -429,25 +456,46 @@ func Battery(u Universe, keys []string, sessions []string, extra BatteryExtra) [
 			return i, r, e
 		})
 	}
-	add("fed", "FederationStateList", func(s *state.Store, ws memdb.WatchSet) (uint64, any, error) { i, r, e := s.FederationStateList(ws); return i, r, e })
-	add("meta", "SystemMetadataList", func(s *state.Store, ws memdb.WatchSet) (uint64, any, error) { i, r, e := s.SystemMetadataList(ws); return i, r, e })
-	add("meta", "AutopilotConfig", func(s *state.Store, ws memdb.WatchSet) (uint64, any, error) { i, r, e := s.AutopilotConfig(); return i, r, e })
+	add("fed", "FederationStateList", func(s *state.Store, ws memdb.WatchSet) (uint64, any, error) {
+		i, r, e := s.FederationStateList(ws)
+		return i, r, e
+	})
+	add("meta", "SystemMetadataList", func(s *state.Store, ws memdb.WatchSet) (uint64, any, error) {
+		i, r, e := s.SystemMetadataList(ws)
+		return i, r, e
+	})
+	add("meta", "AutopilotConfig", func(s *state.Store, ws memdb.WatchSet) (uint64, any, error) {
+		i, r, e := s.AutopilotConfig()
+		return i, r, e
+	})
 	qs[len(qs)-1].NoWatch = true
 	add("meta", "FeatureGatePolicyAndStatus", func(s *state.Store, ws memdb.WatchSet) (uint64, any, error) {
 		i, p, st, e := s.FeatureGatePolicyAndStatus(ws)
 		return i, []any{p, st}, e
 	})
-	add("vip", "ServiceVirtualIPs", func(s *state.Store, ws memdb.WatchSet) (uint64, any, error) { i, r, e := s.ServiceVirtualIPs(); return i, r, e })
+	add("vip", "ServiceVirtualIPs", func(s *state.Store, ws memdb.WatchSet) (uint64, any, error) {
+		i, r, e := s.ServiceVirtualIPs()
+		return i, r, e
+	})
 	qs[len(qs)-1].NoWatch = true
 	// ---- usage metrics (index exempt across restore, see DESIGN C02)
 	usage := func(name string, f func(s *state.Store, ws memdb.WatchSet) (uint64, any, error)) {
 		qs = append(qs, Query{Name: name, Group: "usage", UsageMetric: true, NoWatch: name != "ServiceUsage", Run: f})
 	}
-	usage("ServiceUsage", func(s *state.Store, ws memdb.WatchSet) (uint64, any, error) { i, r, e := s.ServiceUsage(ws, false); return i, r, e })
+	usage("ServiceUsage", func(s *state.Store, ws memdb.WatchSet) (uint64, any, error) {
+		i, r, e := s.ServiceUsage(ws, false)
+		return i, r, e
+	})
 	usage("NodeUsage", func(s *state.Store, ws memdb.WatchSet) (uint64, any, error) { i, r, e := s.NodeUsage(); return i, r, e })
 	usage("KVUsage", func(s *state.Store, ws memdb.WatchSet) (uint64, any, error) { i, r, e := s.KVUsage(); return i, r, e })
-	usage("ConfigEntryUsage", func(s *state.Store, ws memdb.WatchSet) (uint64, any, error) { i, r, e := s.ConfigEntryUsage(); return i, r, e })
-	usage("PeeringUsage", func(s *state.Store, ws memdb.WatchSet) (uint64, any, error) { i, r, e := s.PeeringUsage(); return i, r, e })
+	usage("ConfigEntryUsage", func(s *state.Store, ws memdb.WatchSet) (uint64, any, error) {
+		i, r, e := s.ConfigEntryUsage()
+		return i, r, e
+	})
+	usage("PeeringUsage", func(s *state.Store, ws memdb.WatchSet) (uint64, any, error) {
+		i, r, e := s.PeeringUsage()
+		return i, r, e
+	})
 	return qs
 }
 
